@@ -81,7 +81,7 @@ class Result:
             return
         self.nviol[f.sig] = self.nviol.get(f.sig, 0) + 1
         lst = self.viol.setdefault(f.sig, [])
-        if any(k == f.key for _, k, _, _ in lst):
+        if any(t[1] == f.key for t in lst):
             return
         lst.append((f.size, f.key, f.case, f.detail))
         lst.sort(key=lambda t: (t[0], t[1]))
@@ -95,7 +95,7 @@ class Result:
         for sig, lst in o.viol.items():
             mine = self.viol.setdefault(sig, [])
             for t in lst:
-                if not any(k == t[1] for _, k, _, _ in mine):
+                if not any(m[1] == t[1] for m in mine):
                     mine.append(t)
             mine.sort(key=lambda t: (t[0], t[1]))
             del mine[KEYS_PER_SIG:]
@@ -166,7 +166,46 @@ def _worker(args):
         mod.run_unit(unit, res)
     except BaseException:
         return ('error', repr(unit), traceback.format_exc())
+    for sig, lst in res.viol.items():
+        res.viol[sig] = [t[:4] + (unit,) for t in lst]
     return ('ok', unit, res)
+
+
+def _replay_sigs(args):
+    mod_name, case = args
+    mod = sys.modules[mod_name]
+    a = sorted(set(f.sig for f in mod.replay(case)))
+    b = sorted(set(f.sig for f in mod.replay(case)))
+    return a, b
+
+
+def replay_in_child(mod, case):
+    """Isolated replay (twice) in a freshly forked process, so that the parent's state is never touched
+    and every forked worker / re-run starts from the same initial state."""
+    ctx = mp.get_context('fork')
+    with ctx.Pool(1, maxtasksperchild=1) as pool:
+        return pool.apply(_replay_sigs, ((mod.__name__, case),))
+
+
+def totuple(o):
+    if isinstance(o, (list, tuple)):
+        return tuple(totuple(v) for v in o)
+    return o
+
+
+def rerun_unit_for(mod, unit, sig, key):
+    """Re-run one unit in a freshly forked process (same initial state as the original worker, because
+    every unit runs in its own forked child) and report whether (sig, key) is violated again.  This is
+    the replay of an operation SEQUENCE, for violations that depend on earlier calls of the history."""
+    ctx = mp.get_context('fork')
+    with ctx.Pool(1, maxtasksperchild=1) as pool:
+        status, _u, payload = pool.apply(_worker, ((mod.__name__, unit),))
+    if status != 'ok':
+        return False, payload
+    for t in payload.viol.get(sig, []):
+        if t[1] == key:
+            return True, t
+    return sig in payload.nviol and False, None
 
 
 def write_replay(prop_id, sig, key, case, detail):
@@ -204,7 +243,7 @@ def run_check(mod, tier, seed):
         pool = None
     else:
         ctx = mp.get_context('fork')
-        pool = ctx.Pool(nproc)
+        pool = ctx.Pool(nproc, maxtasksperchild=1)
         it = pool.imap_unordered(_worker, [(mod.__name__, u) for u in units], chunksize=1)
     done_units = 0
     for status, unit, payload in it:
@@ -225,20 +264,32 @@ def run_check(mod, tier, seed):
     lines = []
     unconfirmed = []
     for sig in sorted(total.viol, key=lambda s: (total.viol[s][0][0], s)):
-        for size, key, case, detail in total.viol[sig][:1]:
+        for entry in total.viol[sig][:1]:
+            size, key, case, detail = entry[:4]
+            unit = entry[4] if len(entry) > 4 else None
             try:
-                again = mod.replay(case)
-                again2 = mod.replay(case)
+                sigs1, sigs2 = replay_in_child(mod, case)
             except BaseException:
                 unconfirmed.append((sig, key, traceback.format_exc()))
                 continue
-            sigs1 = sorted(set(f.sig for f in again))
-            sigs2 = sorted(set(f.sig for f in again2))
-            if sig not in sigs1 or sigs1 != sigs2:
-                unconfirmed.append((sig, key, 'replay gave %s then %s' % (sigs1, sigs2)))
+            if sig in sigs1 and sigs1 == sigs2:
+                path = write_replay(prop_id, sig, key, case, detail)
+                lines.append((sig, key, path, detail))
                 continue
-            path = write_replay(prop_id, sig, key, case, detail)
-            lines.append((sig, key, path, detail))
+            # not reproducible in isolation: does it depend on the history of earlier calls?  Replay the
+            # whole operation sequence of the unit (deterministic enumeration) in a fresh forked process.
+            ok, t = (False, None)
+            if unit is not None:
+                ok, t = rerun_unit_for(mod, unit, sig, key)
+            if ok:
+                hcase = {'oracle': '__unit__', 'unit': jsonable(unit), 'expect_signature': sig, 'expect_key': key,
+                         'isolated_case': jsonable(case)}
+                hdetail = ('HISTORY-DEPENDENT: the isolated call satisfies the property, the same call inside the unit\'s '
+                           'operation sequence does not (state leaks between calls). ' + str(detail))
+                path = write_replay(prop_id, sig, key, hcase, hdetail)
+                lines.append((sig, key, path, hdetail))
+            else:
+                unconfirmed.append((sig, key, 'replay gave %s then %s; unit re-run did not reproduce it either' % (sigs1, sigs2)))
     if unconfirmed:
         for sig, key, why in unconfirmed[:5]:
             print('HARNESS-ERROR property=%s non-reproducible violation sig=%s key=%s: %s' % (prop_id, sig, key, why))
